@@ -308,7 +308,7 @@ def canonical_text(prog):
 
 # ===================================================================== fixed
 
-CONT_MARKS = ["&", "1", "+", "x", "$", "9"]
+CONT_MARKS = ["&", "1", "+", "x", "$", "9", "!", "*", "c", "."]
 FIX_COMMENTS = ["C comment", "c", "* star ' \"", "! bang & more", "C     x = 1"]
 
 
